@@ -79,6 +79,8 @@ structure DS where
   ub : Nat := 0                 -- model reached `ub` (must never happen)
   growthDiag : Nat := 0         -- growth steps that differ from the code's own formula
   growths : Nat := 0
+  leaked : Nat := 0             -- values leaked by panicking Clone / Drop (never dropped)
+  zleaked : Nat := 0
 
 def DS.ids (d : DS) : List Nat := d.decl.archs.map (·.id)
 def DS.ncols (d : DS) : List Nat := d.decl.archs.map (·.comps.length)
@@ -373,7 +375,8 @@ def step (d : DS) (op : List String) (implObs implSum : String) : String × DS :
       -- destroy <w|a> <t|y> <var> [@arch]    (here: _lvl a var rowToks = lvl kind var [@arch])
       let worldLevel := _lvl == "w"
       let typed := a == "t"
-      let at_ := (rowToks.getD 0 "").drop 1 |>.toString |>.toNat?
+      let at_ := ((rowToks.find? (·.startsWith "@")).getD "").drop 1 |>.toString |>.toNat?
+      let fault := (kvGet rowToks "fault").map natOf
       match d.getH var, d.world with
       | none, _ => ("undef", d)
       | _, none => noWorld
@@ -381,7 +384,12 @@ def step (d : DS) (op : List String) (implObs implSum : String) : String × DS :
         let r := routeOp d worldLevel typed h at_
         match w.destroy d.cfg r h.kind.isDirect with
         | .ok (some row) w' =>
-          if worldLevel ∧ ¬ typed then ("some" ++ dropsSuffix row, d.setWorld w')
+          if worldLevel ∧ ¬ typed then
+            -- the components are dropped inside the call; a panicking Drop unwinds out of it
+            -- after the entity has been removed, the other fields of the tuple are still dropped
+            let nd := (row.filter (·.tok ≠ 0)).length
+            let faulted : Bool := match fault with | some k => decide (k < nd) | none => false
+            ((if faulted then "panic Injected" else "some") ++ dropsSuffix row, d.setWorld w')
           else ("some " ++ fmtRow row, d.setWorld w')
         | .ok none w' => ("none", d.setWorld w')
         | .panic m w' => ("panic " ++ panicClass m, d.setWorld w')
@@ -549,7 +557,37 @@ def stepShort (d : DS) (op : List String) (implObs implSum : String) : String ×
         let dsts := pairs.map (·.2)
         let allToks := d.worlds.flatMap (fun ow => match ow with | some x => (worldVals x).map (·.tok) | none => [])
         let valid := sortNat srcs == sortNat expected ∧ dsts.Nodup ∧ dsts.all (fun t => t ≠ 0 ∧ ¬ allToks.contains t)
-        if valid then
+        let fault := (kvGet (qn :: kvs) "fault").map natOf
+        let faulted : Bool := match fault with | some k => decide (k < expected.length) | none => false
+        if faulted then
+          -- the k-th Clone::clone panics: clones happen archetype by archetype, entity-major,
+          -- column-minor; archetypes cloned completely before are dropped during the unwind,
+          -- the partially built one is leaked; the source world is untouched
+          let k := fault.getD 0
+          let perArch : List (List Val) := w.archs.map (fun s =>
+            (List.range s.len).flatMap (fun i => s.cols.filterMap (fun c => c[i]?)))
+          let rec split (archs : List (List Val)) (k : Nat) (doneToks : Nat) (doneZ : Nat) :
+              Nat × Nat × Nat × Nat :=   -- (non-zst tokens of complete archetypes, their zst count, partial non-zst, partial zst)
+            match archs with
+            | [] => (doneToks, doneZ, 0, 0)
+            | a :: rest =>
+              let nz := (a.filter (·.tok ≠ 0)).length
+              if k < nz then
+                -- fault inside this archetype: cells before the k-th non-zst one were cloned
+                let rec pre (l : List Val) (k : Nat) (t z : Nat) : Nat × Nat :=
+                  match l with
+                  | [] => (t, z)
+                  | v :: l' => if v.tok = 0 then pre l' k t (z + 1) else if k = 0 then (t, z) else pre l' (k - 1) (t + 1) z
+                let (pt, pz) := pre a k 0 0
+                (doneToks, doneZ, pt, pz)
+              else split rest (k - nz) (doneToks + nz) (doneZ + (a.length - nz))
+          let (dT, dZ, pT, pZ) := split perArch k 0 0
+          let okPairs := pairs.length == dT + pT ∧ srcs == expected.take (dT + pT) ∧ dsts.Nodup
+          let dropped := (dsts.take dT).map (fun t => (⟨t, 0⟩ : Val)) ++ List.replicate dZ ⟨0, 0⟩
+          let mapS := if okPairs then mapStr else s!"map=EXPECTED-SRCS:{joinWith "," ((expected.take (dT + pT)).map toString)}"
+          (s!"panic Injected {mapS} zclones={dZ + pZ}" ++ dropsSuffix dropped,
+            { d with leaked := d.leaked + pT, zleaked := d.zleaked + pZ })
+        else if valid then
           let cl : Val → Val := fun v =>
             if v.tok = 0 then v else ⟨((pairs.find? (·.1 == v.tok)).map (·.2)).getD 0, v.val⟩
           match w.clone cl with
@@ -569,8 +607,34 @@ def stepShort (d : DS) (op : List String) (implObs implSum : String) : String ×
       match d.worlds.getD i none with
       | none => ("no-world", d)
       | some w =>
+        let fault := (kvGet kvs "fault").map natOf
         match w.drop with
-        | .ok vals _ => ("ok" ++ dropsSuffix vals, { d with worlds := d.worlds.set i none })
+        | .ok vals _ =>
+          let nd := (vals.filter (·.tok ≠ 0)).length
+          let faulted : Bool := match fault with | some k => decide (k < nd) | none => false
+          if faulted then
+            -- the k-th Drop::drop panics inside one storage's drop: the rest of that storage's
+            -- cells are leaked, the other archetypes are still dropped during the unwind
+            let k := fault.getD 0
+            let perArch : List (List Val) := w.archs.map (fun s => s.cols.flatMap (fun c => c.take s.len))
+            let rec go (archs : List (List Val)) (k : Nat) (hit : Bool) (dropped : List Val) (leakT leakZ : Nat) :
+                List Val × Nat × Nat :=
+              match archs with
+              | [] => (dropped, leakT, leakZ)
+              | a :: rest =>
+                let nz := (a.filter (·.tok ≠ 0)).length
+                if hit || k ≥ nz then go rest (k - nz) hit (dropped ++ a) leakT leakZ
+                else
+                  let rec cut (l : List Val) (k : Nat) (acc : List Val) : List Val × List Val :=
+                    match l with
+                    | [] => (acc, [])
+                    | v :: l' => if v.tok = 0 then cut l' k (acc ++ [v]) else if k = 0 then (acc ++ [v], l') else cut l' (k - 1) (acc ++ [v])
+                  let (dr, lk) := cut a k []
+                  go rest 0 true (dropped ++ dr) (leakT + (lk.filter (·.tok ≠ 0)).length) (leakZ + (lk.filter (·.tok = 0)).length)
+            let (dropped, lT, lZ) := go perArch k false [] 0 0
+            ("panic Injected" ++ dropsSuffix dropped,
+              { d with worlds := d.worlds.set i none, leaked := d.leaked + lT, zleaked := d.zleaked + lZ })
+          else ("ok" ++ dropsSuffix vals, { d with worlds := d.worlds.set i none })
         | .panic m _ => ("panic " ++ panicClass m, d)
         | .ub m => ubOut m
     else if cmd == "clear" then
@@ -610,6 +674,9 @@ def stepShort (d : DS) (op : List String) (implObs implSum : String) : String ×
       | ["none"] => ("none", d)
       | _ => ("bad-witness", d)
     else ("bad-op", d)
+  | ["end"] =>
+    let alive := d.worlds.flatMap (fun ow => match ow with | some x => worldVals x | none => [])
+    (s!"live={d.leaked + (alive.filter (·.tok ≠ 0)).length} zlive={d.zleaked + (alive.filter (·.tok = 0)).length}", d)
   | ["events"] =>
     if d.cfg.events then
       match d.world with
